@@ -48,7 +48,7 @@ CLAIMED = {
              'authority handle: window accounting, tiling, no underflow on all paths; from_scheme lemma; scanner Err positions used as insertion points and the guard predicates '
              '(looks_like_scheme, first_segment_has_colon, has-scheme) verified against the scanner MIR.',
         design_ref='DESIGN.md §3 Engine D (D1–D3), Engine C (C-sites, C-gate), §4 C04',
-        note='See notes in DESIGN.md §4 C04 for the path handle: push/pop/clear/normalize and the composites built on them (symbolic_push/append, PathBuf wrappers, resolve) are covered as stated there. '
+        note='Path handle: every path of push/pop/clear/normalize/make_root (in place for the four RI owners, stand-alone for both path types) is closed under L(O) too (virtual cut markers; normalize content over-approximated); composites (symbolic_push/append, PathBuf wrappers, resolve, relative_to) contain no storage access of their own and inherit the invariant. '
              '"No call panics" is decided for what the affine/automata domains see (bounds of splices, tiling lengths, usize underflow, scanner assertions). Genuine defect F6 was repaired by a fix: commit; '
              'the four non-closed paths are reported with witness ":" on the pre-fix tree. Trusted: utils::replace/allocate_range summaries, std Vec/slice contracts.',
         technique='symbolic path enumeration over MIR + regular language closure on the marked grammar automaton + unsafe-site table (static analysis)',
@@ -90,14 +90,28 @@ CLAIMED = {
         technique='key-projection and hash-shape extraction from MIR / impl tables (static analysis)',
         engine='C',
     ),
+    'C09': dict(
+        category='model_checking',
+        text='Claimed in part. For the in-place normalize() inside every kind of URI/IRI (reference) and on stand-alone paths, over ALL buffers, with the rebuilt content over-approximated by ANY '
+             'sequence of segments: the result is a valid value of the same type; its decomposition is "path = rewritten window, every other component unchanged" (marked-language inclusion in the '
+             '10-marker automaton), so scheme, authority, query, fragment are never altered; absolute stays absolute, relative stays relative; window accounting and exact tiling of shield + content; '
+             'all entry points (normalize, Path ==/cmp/hash) go through the one normalising iterator.',
+        design_ref='DESIGN.md §3 Engine D (D1–D3), §4 C09',
+        note='NOT decided: that the segment sequence is the RFC 3986 §5.2.4 / Errata 4547 one, idempotence, agreement of normalized()/iterator/in-place on values, spill paths of the inline buffers '
+             '(all functions of unbounded run-time stacks). Genuine defect F5 (no shield in normalize) was repaired by a fix: commit; the check reports it with witnesses on the pre-fix tree.',
+        technique='symbolic path enumeration over MIR + regular language closure with virtual cut markers (static analysis)',
+        engine='D+A',
+    ),
     'C10': dict(
         category='model_checking',
         text='Claimed in part. All 51 symbolic paths of PathMutImpl::{push, pop, clear, normalize}, in place (window = path span of any enclosing buffer) and stand-alone, are explored with affine values: '
              'Δ(self.end) equals the net length change of the splices, start is fixed, every splice lies inside [start, end] (so scheme/authority before and query/fragment after are never touched), '
              'holes are tiled exactly, no usize subtraction underflows (pop\'s backward loop keeps its index in the window) — an inductive invariant, hence it holds over any sequence of edits through one handle. '
-             'Handle wiring (find_path window, follows_authority from find_authority), composites without own splices, leading "/" outside every rewritten window, family twins.',
-        design_ref='DESIGN.md §3 Engine D (D1, D2, D4), §4 C10',
-        note='NOT decided: list semantics of push/pop/symbolic push (values), relative-stays-relative. Genuine defect F9 (push of an empty segment after a trailing "./" underflowed the end offset: panic in debug builds) '
+             'Handle wiring (find_path window, follows_authority from find_authority), composites without own splices, family twins. Language level (Engine D3, virtual cut markers for positions '
+             'inside the path): after push / pop / clear the decomposition of the enclosing buffer is "path = edited window, every other component unchanged" and an absolute path stays absolute, a relative one relative.',
+        design_ref='DESIGN.md §3 Engine D (D1–D4), §4 C10',
+        note='NOT decided: list semantics of push/pop/symbolic push (values). Genuine defects F9 (push of an empty segment after a trailing "./" underflowed) and F10 (push/pop on the empty path after an authority '
+             'appended to the authority) were found by these rules and repaired by fix: commits. Old note: F9 (push of an empty segment after a trailing "./" underflowed the end offset: panic in debug builds) '
              'was found by the underflow rule and repaired by a fix: commit.',
         technique='path-sensitive affine symbolic evaluation of MIR with loop havoc (effect analysis, static analysis)',
         engine='D',
